@@ -472,7 +472,7 @@ pub fn run(ctx: &Ctx) {
         crate::engine::Tier::Quick => 12,
         crate::engine::Tier::Thorough => 14,
     };
-    ctx.run_generated(&Programs, ctx.tier.pick(6_000, 150_000), || program_strategy(max));
+    ctx.run_generated(&Programs, ctx.tier.pick(30_000, 300_000), || program_strategy(max));
 }
 
 pub fn replay(w: &mut Worker, sub: &str, case: &serde_json::Value) -> Option<Verdict> {
